@@ -5,13 +5,17 @@ import (
 	"errors"
 	"fmt"
 
-	"github.com/nspcc-dev/neo-go/pkg/config/limits"
 	"github.com/nspcc-dev/neo-go/pkg/io"
 	"github.com/nspcc-dev/neo-go/pkg/util"
+	"github.com/nspcc-dev/neo-go/pkg/vm/stackitem"
 )
 
-// MaxValueLength is the max length of a leaf node value.
-const MaxValueLength = 3 + limits.MaxStorageValueLen + 1
+// MaxValueLength is the max length of a leaf node value. Values stored by
+// contracts are limited by limits.MaxStorageValueLen, but native contracts store
+// bigger ones: a contract state kept by ContractManagement is a serialized stack
+// item (up to stackitem.MaxSize bytes). Whatever gets into the trie (batches are
+// not checked) must be readable back from the storage.
+const MaxValueLength = 3 + stackitem.MaxSize + 1
 
 // LeafNode represents an MPT's leaf node.
 type LeafNode struct {
